@@ -583,6 +583,210 @@ func runLoad(seed uint64, scale int, out string, _ string) *summary {
 			sum.Samples = append(sum.Samples, fmt.Sprintf("load %s steps=%d", desc, nsteps))
 		}
 	}
+	bulkWindows(r, scale, sum, seen)
 	sum.Distinct = len(seen)
 	return sum
+}
+
+// windowBulk is the bulk loader of the bulk windows: it records the key sets it is invoked with, waits at
+// its gate, and returns the prepared map (which may volunteer keys nobody asked it for).
+type windowBulk struct {
+	mu      sync.Mutex
+	calls   [][]int
+	entered chan struct{}
+	gate    chan struct{}
+	result  func(keys []int) (map[int]int, error)
+}
+
+func (b *windowBulk) BulkLoad(ctx context.Context, keys []int) (map[int]int, error) {
+	b.mu.Lock()
+	b.calls = append(b.calls, append([]int(nil), keys...))
+	b.mu.Unlock()
+	b.entered <- struct{}{}
+	<-b.gate
+	return b.result(keys)
+}
+func (b *windowBulk) BulkReload(ctx context.Context, keys []int, olds []int) (map[int]int, error) {
+	return b.BulkLoad(ctx, keys)
+}
+
+// bulkWindows: implementation-only windows of C08 for bulk calls over OVERLAPPING key sets (the protocol
+// model's events are per key: a bulk call is a run of LStart events, one loader invocation, and a run of
+// LFinish events, so its theorems cover these interleavings; here the code is held to them).
+// A single Get of k is in flight (its loader blocked); a BulkGet of {j, k} must join it for k and invoke
+// the bulk loader with [j] only; the bulk loader returns j — and in half of the windows volunteers a value
+// for k too; the BulkGet must not return while k's load is in flight, and must hand out that load's result
+// for k.  Second shape: two BulkGets over {j, k} and {k, m}: the second joins k.
+func bulkWindows(r *rng, scale int, sum *summary, seen map[string]bool) {
+	for it := 0; it < 24*scale; it++ {
+		c := otter.Must(&otter.Options[int, int]{Logger: &otter.NoopLogger{}})
+		j, k, m := 10, 20, 30
+		volunteer := r.chance(50)
+		shape := r.intn(2)
+		outcome := r.intn(3) // the first load of k: 0 value, 1 not found, 2 error
+		desc := fmt.Sprintf("bulk window %d shape=%d volunteer=%v first-load-outcome=%d", it, shape, volunteer, outcome)
+		seen[fmt.Sprintf("BW/%d/%v/%d", shape, volunteer, outcome)] = true
+		sum.Ops++
+		sum.Dist["bulk_windows"]++
+		firstEntered := make(chan struct{}, 1)
+		firstGate := make(chan struct{})
+		firstLoads := 0
+		var fmu sync.Mutex
+		firstResult := func() (int, error) {
+			switch outcome {
+			case 1:
+				return 0, otter.ErrNotFound
+			case 2:
+				return 0, errors.New("boom")
+			}
+			return 2000, nil
+		}
+		type res struct {
+			m   map[int]int
+			v   int
+			err error
+		}
+		firstDone := make(chan res, 1)
+		var firstBulk *windowBulk
+		if shape == 0 {
+			go func() {
+				v, err := c.Get(context.Background(), k, otter.LoaderFunc[int, int](func(ctx context.Context, key int) (int, error) {
+					fmu.Lock()
+					firstLoads++
+					fmu.Unlock()
+					firstEntered <- struct{}{}
+					<-firstGate
+					return firstResult()
+				}))
+				firstDone <- res{v: v, err: err}
+			}()
+		} else {
+			firstBulk = &windowBulk{entered: make(chan struct{}, 4), gate: make(chan struct{}), result: func(keys []int) (map[int]int, error) {
+				out := map[int]int{}
+				for _, key := range keys {
+					if key == k {
+						v, err := firstResult()
+						if err != nil {
+							if errors.Is(err, otter.ErrNotFound) {
+								continue
+							}
+							return nil, err
+						}
+						out[key] = v
+					} else {
+						out[key] = 100 * key
+					}
+				}
+				return out, nil
+			}}
+			go func() {
+				mp, err := c.BulkGet(context.Background(), []int{j, k}, firstBulk)
+				firstDone <- res{m: mp, err: err}
+			}()
+		}
+		select {
+		case <-firstEntered:
+		case <-func() chan struct{} {
+			if firstBulk != nil {
+				return firstBulk.entered
+			}
+			return nil
+		}():
+		case <-time.After(5 * time.Second):
+			sum.fail("C08", "bulk-window-setup", "the first load never started", desc)
+			continue
+		}
+		// the second, overlapping bulk call
+		second := &windowBulk{entered: make(chan struct{}, 4), gate: make(chan struct{}), result: func(keys []int) (map[int]int, error) {
+			out := map[int]int{}
+			for _, key := range keys {
+				out[key] = 100 * key
+			}
+			if volunteer {
+				out[k] = 7777
+			}
+			return out, nil
+		}}
+		other := j
+		if shape == 1 {
+			other = m
+		}
+		secondDone := make(chan res, 1)
+		go func() {
+			mp, err := c.BulkGet(context.Background(), []int{other, k}, second)
+			secondDone <- res{m: mp, err: err}
+		}()
+		select {
+		case <-second.entered:
+		case <-time.After(5 * time.Second):
+			sum.fail("C08", "bulk-no-load", "a BulkGet with one missing key of its own never invoked its loader", desc)
+		}
+		second.mu.Lock()
+		for _, ks := range second.calls {
+			for _, key := range ks {
+				if key == k {
+					sum.fail("C08", "overlap", "a second loader invocation started while a load of the same key was in flight and the key had not been written",
+						fmt.Sprintf("%s: the overlapping BulkGet's loader was asked for %v while key %d was being loaded", desc, ks, k))
+				}
+			}
+		}
+		second.mu.Unlock()
+		close(second.gate) // the second call's own load finishes; k's first load is still in flight
+		select {
+		case got := <-secondDone:
+			sum.fail("C08", "bulk-early-return", "a BulkGet returned while the load of one of its keys, which it had joined, was still in flight",
+				fmt.Sprintf("%s: returned (%v, %v)", desc, got.m, got.err))
+			secondDone <- got
+		case <-time.After(30 * time.Millisecond):
+		}
+		// now the first load finishes
+		if firstBulk != nil {
+			close(firstBulk.gate)
+		} else {
+			close(firstGate)
+		}
+		var first, sec res
+		select {
+		case first = <-firstDone:
+		case <-time.After(5 * time.Second):
+			sum.fail("C08", "stuck-waiter", "callers never returned", desc+" (first caller)")
+			continue
+		}
+		select {
+		case sec = <-secondDone:
+		case <-time.After(5 * time.Second):
+			sum.fail("C08", "stuck-waiter", "callers never returned", desc+" (overlapping BulkGet)")
+			continue
+		}
+		_ = first
+		// the joiner receives the joined load's result for k
+		switch outcome {
+		case 0:
+			if v, ok := sec.m[k]; sec.err != nil || !ok || v != 2000 {
+				sum.fail("C08", "bulk-joined-value", "a BulkGet that joined an in-flight load did not receive that load's result for the key",
+					fmt.Sprintf("%s: got (%v, %v), the joined load returned 2000", desc, sec.m, sec.err))
+			}
+		case 1:
+			if _, ok := sec.m[k]; sec.err != nil || ok {
+				sum.fail("C08", "bulk-joined-value", "a BulkGet that joined an in-flight load did not receive that load's result for the key",
+					fmt.Sprintf("%s: got (%v, %v), the joined load reported not-found", desc, sec.m, sec.err))
+			}
+		case 2:
+			if sec.err == nil {
+				sum.fail("C08", "bulk-joined-value", "a BulkGet that joined an in-flight load did not receive that load's result for the key",
+					fmt.Sprintf("%s: got (%v, nil), the joined load failed", desc, sec.m))
+			}
+		}
+		if v, ok := sec.m[other]; sec.err == nil && (!ok || v != 100*other) {
+			sum.fail("C10", "bulk-own-value", "a BulkGet did not return the value its own loader produced", fmt.Sprintf("%s: got %v", desc, sec.m))
+		}
+		if n := otter.VerifInFlight(c); n != 0 {
+			sum.fail("C08", "table-not-clean", "in-flight records are left behind after every load has finished", fmt.Sprintf("%s records=%d", desc, n))
+		}
+		fmu.Lock()
+		if shape == 0 && firstLoads != 1 {
+			sum.fail("C08", "overlap", "a second loader invocation started while a load of the same key was in flight and the key had not been written", fmt.Sprintf("%s: loader of key %d ran %d times", desc, k, firstLoads))
+		}
+		fmu.Unlock()
+	}
 }
